@@ -31,6 +31,8 @@ THEOREMS = [
     "Pyribs.C14b.cells_eq_len_convention",
     "Pyribs.Cqd.score_perm_invariant",
     "Pyribs.Cqd.score_eq_formula",
+    "Pyribs.Cqd.dist_le_defaultDistMax",
+    "Pyribs.Cqd.defaultDistMax_depends_on_ord",
     "Pyribs.Cqd.nonvacuous",
     "Pyribs.C15b.good_addSingle",
     "Pyribs.C15b.good_history",
@@ -75,7 +77,7 @@ def gen_cqd(rng):
 def run_cqd(case):
     """Run the history (stats oracle on), then compare cqd_score with the model and across histories."""
     run = archlib.Run(case, PROPS)
-    f = run.run()       # closes the driver
+    f = archlib.guarded(run, PROPS)       # closes the driver
     if f is not None:
         return f
     c = case["cqd"]
@@ -133,6 +135,28 @@ def run_cqd(case):
                 return Failure("oracle", f"[C06] cqd_score iteration {it}: {float(got)!r} but the formula sum over penalties "
                                f"and targets of max over current elites (objective/span - penalty*dist/dist_max) gives "
                                f"{float(want)!r}")
+    # default dist_max: the norm, in the same order as the distances, of upper_bounds - lower_bounds (model: defaultDistMax)
+    lo = [F(float(x)) for x in arch.lower_bounds]
+    hi = [F(float(x)) for x in arch.upper_bounds]
+    if ordv != 2 and all(a < b for a, b in zip(lo, hi)):
+        drv0 = Driver("cqd")
+        try:
+            dm = drv0.ask(f"dmax ord={c['ord']} lo={ql(lo)} hi={ql(hi)}")
+        finally:
+            drv0.close()
+        dmax0 = F(dm)
+        res0 = arch.cqd_score(len(targets), targets, pens, obj_min, obj_max, dist_ord=ordv)
+        ctx_note = f"default dist_max (ord={c['ord']}, bounds {ql(lo)}..{ql(hi)}) = {dm}"
+        for it, pts in enumerate(c["targets"]):
+            want = F(0)
+            for pen in [F(float(x)) for x in pens]:
+                for pt in pts:
+                    t = [F(x) for x in pt]
+                    want += max(o / span - pen * dist(m, t) / dmax0 for o, m in zip(objs, meas))
+            got = F(float(res0.scores[it]))
+            if abs(got - want) > F(1, 2**36) * max(1, abs(want)):
+                return Failure("oracle", f"[C06] cqd_score with the default dist_max, iteration {it}: {float(got)!r} but the "
+                               f"formula with {ctx_note} gives {float(want)!r}")
     # variants: integer `penalties` (linspace) and integer `target_points` (drawn by the archive, reported back)
     res3 = arch.cqd_score(2, 3, 3, obj_min, obj_max, dist_max=float(F(c["dist_max"])), dist_ord=ordv)
     if list(res3.penalties) != [0.0, 0.5, 1.0] or np.asarray(res3.target_points).shape != (2, 3, len(case["lo"])):
